@@ -75,6 +75,9 @@ class ChildScalar(np.lib.mixins.NDArrayOperatorsMixin):
             hparent = self.child.hparent
             filt_arr = hparent.filter.all
             self._array = hparent[self.feat][filt_arr]
+            # The cached array (or views of it) is handed out to the user.
+            # Make sure it cannot be modified.
+            self._array.setflags(write=False)
         return np.array(self._array, dtype=dtype, copy=copy, *args, **kwargs)
 
     def __getitem__(self, idx):
